@@ -542,6 +542,42 @@ pub fn check_against_fold(
             }
         }
     }
+    // the same two numbers as the scheduler holds them after it was given the restored tasks
+    // (the values above are what the restore hands over)
+    let core = cut.world.snapshot();
+    for ts in &core.tasks {
+        if let Some(tf) = f
+            .jobs
+            .get(&ts.id.job_id())
+            .and_then(|j| j.tasks.get(&ts.id.job_task_id().as_num()))
+        {
+            if let Some(li) = tf.last_instance {
+                if ts.instance_id.as_num() <= li {
+                    alarm(
+                        obs,
+                        "C06",
+                        "restored task would re-run with an instance id that was already used",
+                        format!(
+                            "{label}: {} last recorded instance {li}, the scheduler holds instance {}",
+                            ts.id,
+                            ts.instance_id.as_num()
+                        ),
+                    );
+                }
+            }
+            if !tf.lenient && ts.crash_counter != tf.crash_count {
+                alarm(
+                    obs,
+                    "C07",
+                    "crash count does not survive the restart",
+                    format!(
+                        "{label}: {} journal records {} failure-type losses while running, the scheduler holds {}",
+                        ts.id, tf.crash_count, ts.crash_counter
+                    ),
+                );
+            }
+        }
+    }
     // C11
     let new_job = cut.world.state_ref.get_mut().new_job_id();
     if new_job.as_num() <= f.max_job_id {
@@ -857,6 +893,7 @@ async fn drain_restored(
     // once more: journals with earlier restarts in them
     let second = sim.genv >= 1 && (seed2 & 1) == 1 && !sim.case_choices.is_empty();
     let mut sim2 = Sim {
+        profile: sim.profile.clone(),
         case_choices: Vec::new(),
         genv: sim.genv,
         world: cut.world,
